@@ -348,6 +348,22 @@ def mon_pool(h, obs, prop):
                         else:
                             hit("C19", "C19/admitted-tx-lost", f"transaction {hh} ({a},{n}) was held by the pool and is gone without commit, supersession or eviction", o)
                     del admitted[hh]
+            # the same count without trusting the pool's own marks: held transactions in the gap-free run from the committed nonce that
+            # no observed batch has carried since (a mark without a batch hides a transaction from every later batch)
+            true_unbatched = 0
+            for a, held in present.items():
+                if a == FOREIGN and foreign_seen:
+                    continue
+                nn = chain_commit.get(a, 0)
+                while nn in held:
+                    if (a, nn) not in batched:
+                        true_unbatched += 1
+                    nn += 1
+            if true_unbatched > 0 and not pending and not timed and prio - nbatched <= 0:
+                hit("C19", "C19/pending-flag-missed/marked-batched-but-in-no-batch", f"{true_unbatched} ready transactions were in no batch since their last commit, yet HasPendingRequest is false "
+                    f"(the pool counts {prio} ready, {nbatched} batched)", o)
+            if in_continuation and rounds * batch_size >= ready_at_mark + batch_size and true_unbatched > 0 and prio - nbatched <= 0 and not foreign_seen:
+                hit("C19", "C19/ready-tx-never-batched/marked-batched-but-in-no-batch", f"after {rounds} rounds of generate+commit {true_unbatched} ready transactions are still in no batch", o)
             # pending flag: a ready, not yet batched transaction exists  =>  HasPendingRequest
             if prio - nbatched > 0 and not pending and not timed:
                 hit("C19", "C19/pending-flag-missed", f"{prio - nbatched} ready unbatched transactions but HasPendingRequest is false (counter {nonbatch})", o)
